@@ -126,6 +126,8 @@ impl Which {
             }
             Which::C25 => {
                 o.builtin = 40;
+                // more `X?` / `X*` / `X+`: their derived names are renaming targets
+                o.rep_weight = 70;
             }
             Which::C16 => {}
             Which::C19 => {
@@ -1571,6 +1573,12 @@ fn evaluate_cases(
                 if which == Which::C25 {
                     if count {
                         ck.eval();
+                        if cb.pair_note.split(' ').any(|n| n.ends_with("_3f") || n.ends_with("_2a") || n.ends_with("_2b")) {
+                            ck.class(if ascent { "c25_nonterminal_named_like_an_escaped_derived_name_ascent" } else { "c25_nonterminal_named_like_an_escaped_derived_name_table" });
+                            if batch.accepted[ia] && batch.accepted[ib] {
+                                ck.class("c25_escaped_derived_name_pair_accepted");
+                            }
+                        }
                     }
                     if batch.accepted[ia] != batch.accepted[ib] {
                         let msg = |i: usize| batch.gen[i].stdout.lines().find(|l| l.contains("error") || l.contains("detected")).unwrap_or("").to_string();
